@@ -46,6 +46,7 @@ def run_shards(prop, tier, seed, meta, replay=None):
     running = {}
     results, problems = [], []
     hard = budget * 3 + 120
+    env["VF_SHARD_HARD_S"] = str(hard)
     while pending or running:
         while pending and len(running) < NCPU:
             s = pending.pop(0)
@@ -63,8 +64,15 @@ def run_shards(prop, tier, seed, meta, replay=None):
                 if time.time() - t0 > hard:
                     p.kill()
                     p.wait()
-                    problems.append(f"shard {s}: watchdog fired after {hard}s")
                     log.close()
+                    # the worker dumps its stack shortly before the watchdog fires: say where it was
+                    where = ""
+                    try:
+                        lines = [ln.strip() for ln in open(os.path.join(tmp, f"{s}.log")) if ln.strip().startswith("File ")]
+                        where = " (stack: " + " <- ".join(ln.split("/")[-1] for ln in lines[:6]) + ")" if lines else ""
+                    except Exception:  # noqa: BLE001
+                        pass
+                    problems.append(f"shard {s}: watchdog fired after {hard}s{where}")
                     del running[s]
                 continue
             log.close()
